@@ -14,6 +14,8 @@ import (
 	"github.com/idena-network/idena-go/common"
 	"github.com/idena-network/idena-go/common/eventbus"
 	"github.com/idena-network/idena-go/core/state"
+	"github.com/idena-network/idena-go/crypto/ecies"
+	"github.com/idena-network/idena-go/crypto/vrf/p256"
 	"github.com/idena-network/idena-go/events"
 
 	"verif/sim/seamrt"
@@ -582,4 +584,27 @@ func (c *Cer) Activate(fresh *Ident, view *simnode.Node) bool {
 		s.NoteAccepted(tx)
 	}
 	return any
+}
+
+// LongAnswersTx builds a SubmitLongAnswersTx of id (junk answers, genuine VRF proof) valid on view's state, or nil.
+func (s *Scn) LongAnswersTx(view *simnode.Node, id *Ident) *types.Transaction {
+	var tx *types.Transaction
+	view.Do(func() {
+		st := view.App.State
+		ident := st.GetIdentity(id.Addr)
+		if !state.IsCeremonyCandidate(ident) || ident.HasValidationTx(types.SubmitLongAnswersTx) || st.ValidationPeriod() < state.LongSessionPeriod {
+			return
+		}
+		seed := st.FlipWordsSeed()
+		proof := []byte{1}
+		if signer, err := p256.NewVRFSigner(id.Key); err == nil {
+			_, proof = signer.Evaluate(seed[:])
+		}
+		nonce, ep := s.NextNonce(view, id)
+		t := &types.Transaction{AccountNonce: nonce, Epoch: ep, Type: types.SubmitLongAnswersTx,
+			Payload: attachments.CreateLongAnswerAttachment([]byte{1, 2}, proof, []byte{2}, ecies.ImportECDSA(id.Key))}
+		t.MaxFee = new(big.Int).Mul(fee.CalculateFee(view.App.ValidatorsCache.NetworkSize(), FeeRate(view), t), big.NewInt(2))
+		tx = s.sign(t, id)
+	})
+	return tx
 }
